@@ -2,10 +2,198 @@
 Second part of the state invariant of the request-response model: the ghost logs (responses received
 through a pending response, requests handed out by a server), the order of the request queues and
 the server registry.  `InvX` is a field of `Inv` (ReqResInv.lean); this file has its transfer lemmas.
+
+Request ids are assigned when a request is LOANED, send numbers (`Msg.gSeq` of a request, ghost) when it is
+SENT; loans may be sent in any order.  The order statements are therefore about send numbers (`InvC` with
+`<` on `gSeq` and the log `gRecvSeq`), the identity statements about request ids (`InvC` with `≠` on `rid`
+and the log `gRecvReq`).
 -/
 import Iox2.Proof.ReqResFrame
 namespace Iox2.ReqRes
 open Iox2.PubSub (Reg firstFree)
+
+/-- request queues and hand-out logs with respect to a key of the request (`key`), a relation between
+keys (`R`) and the log of the keys a server handed out (`log`) -/
+structure InvC (R : Nat → Nat → Prop) (key : Msg → Nat) (log : Server → List (Nat × Nat)) (w : World) : Prop where
+  /-- the keys a server handed out for one client are pairwise related, in hand-out order -/
+  c1 : ∀ s V c, getSv w s = some V → (((log V).filter (fun e => e.1 = c)).map (·.2)).Pairwise R
+  /-- request queues are pairwise related, in queue order -/
+  c2 : ∀ (f t : Pid) (conn : Conn) (ch : Nat) (x : Chan), getConn w f t = some conn → conn.chans[ch]? = some x →
+        t.srv = true → (x.sub.map (fun e => key e.msg)).Pairwise R
+  /-- what a server handed out is related to everything still queued for it by that client -/
+  c3 : ∀ s V c v (conn : Conn) (x : Chan) (e : Entry), getSv w s = some V → (c, v) ∈ log V →
+        getConn w (cid c) (sid s) = some conn → conn.chans[0]? = some x → e ∈ x.sub → R v (key e.msg)
+
+namespace InvC
+variable {R : Nat → Nat → Prop} {key : Msg → Nat} {log : Server → List (Nat × Nat)}
+
+/-- servers stay, queues shrink to suffixes or are empty -/
+theorem of_shrink {w w' : World} (hI : InvC R key log w) (hsv : ∀ s, getSv w' s = getSv w s)
+    (hconn : ∀ (f t : Pid) (c' : Conn) (ch : Nat) (x' : Chan), getConn w' f t = some c' → c'.chans[ch]? = some x' →
+      (∃ c x, getConn w f t = some c ∧ c.chans[ch]? = some x ∧ x'.sub <:+ x.sub) ∨ x'.sub = []) : InvC R key log w' := by
+  refine ⟨?_, ?_, ?_⟩
+  · intro s V c hV; rw [hsv] at hV; exact hI.c1 s V c hV
+  · intro f t conn ch x hc hx ht
+    rcases hconn f t conn ch x hc hx with ⟨c0, x0, hc0, hx0, hsub⟩ | hnil
+    · exact (hI.c2 f t c0 ch x0 hc0 hx0 ht).sublist (hsub.sublist.map _)
+    · rw [hnil]; exact List.Pairwise.nil
+  · intro s V c v conn x e hV hv hc hx he
+    rw [hsv] at hV
+    rcases hconn _ _ conn 0 x hc hx with ⟨c0, x0, hc0, hx0, hsub⟩ | hnil
+    · exact hI.c3 s V c v c0 x0 e hV hv hc0 hx0 (hsub.subset he)
+    · rw [hnil] at he; cases he
+
+/-- everything the statements look at stays -/
+theorem of_same {w w' : World} (hI : InvC R key log w) (hsv : ∀ s, getSv w' s = getSv w s)
+    (hco : ∀ f t, getConn w' f t = getConn w f t) : InvC R key log w' :=
+  hI.of_shrink hsv (fun f t c' ch x' hc hx => Or.inl ⟨c', x', by rw [← hco]; exact hc, hx, List.suffix_refl _⟩)
+
+theorem hk {w w' : World} {me : Pid} (hI : InvC R key log w) (h : Hk me w w') : InvC R key log w' := by
+  refine hI.of_shrink h.getSv_eq ?_
+  intro f t c' ch x' hc hx
+  rcases h.conns f t c' hc with ⟨c, hc0, l⟩ | fr
+  · obtain ⟨x, hx0, l0⟩ := l.1 ch x' hx
+    exact Or.inl ⟨c, x, hc0, hx0, l0.2⟩
+  · exact Or.inr (fr ch x' hx).1
+
+/-- a server record is written, its log stays -/
+theorem setSv {w w' : World} (hI : InvC R key log w) {s : Nat} {V V' : Server} (hV : getSv w s = some V)
+    (hsv : ∀ s', getSv w' s' = if s' = s then some V' else getSv w s') (hco : ∀ f t, getConn w' f t = getConn w f t)
+    (hlog : log V' = log V) : InvC R key log w' := by
+  refine ⟨?_, ?_, ?_⟩
+  · intro s' X c hX
+    rw [hsv] at hX; split at hX
+    · next hss => cases hX; subst hss; rw [hlog]; exact hI.c1 s' V c hV
+    · exact hI.c1 s' X c hX
+  · intro f t conn ch x hc; rw [hco] at hc; exact hI.c2 f t conn ch x hc
+  · intro s' X c v conn x e hX hv hc hx he
+    rw [hco] at hc
+    rw [hsv] at hX; split at hX
+    · next hss => cases hX; subst hss; rw [hlog] at hv; exact hI.c3 s' V c v conn x e hV hv hc hx he
+    · exact hI.c3 s' X c v conn x e hX hv hc hx he
+
+/-- a server record with an empty log appears -/
+theorem setSvNew {w w' : World} (hI : InvC R key log w) {s : Nat} {V' : Server}
+    (hsv : ∀ s', getSv w' s' = if s' = s then some V' else getSv w s') (hco : ∀ f t, getConn w' f t = getConn w f t)
+    (hlog : log V' = []) : InvC R key log w' := by
+  refine ⟨?_, ?_, ?_⟩
+  · intro s' X c hX
+    rw [hsv] at hX; split at hX
+    · cases hX; rw [hlog]; exact List.Pairwise.nil
+    · exact hI.c1 s' X c hX
+  · intro f t conn ch x hc; rw [hco] at hc; exact hI.c2 f t conn ch x hc
+  · intro s' X c v conn x e hX hv hc hx he
+    rw [hco] at hc
+    rw [hsv] at hX; split at hX
+    · cases hX; rw [hlog] at hv; cases hv
+    · exact hI.c3 s' X c v conn x e hX hv hc hx he
+
+/-- a server hands out the request with key `v` of client `c` -/
+theorem setSv_log {w w' : World} (hI : InvC R key log w) {s : Nat} {V V' : Server} (hV : getSv w s = some V)
+    (hsv : ∀ s', getSv w' s' = if s' = s then some V' else getSv w s') (hco : ∀ f t, getConn w' f t = getConn w f t)
+    {c v : Nat} (hlog : log V' = log V ++ [(c, v)])
+    (h1 : ∀ v', (c, v') ∈ log V → R v' v)
+    (h3 : ∀ (conn : Conn) (x : Chan) (e : Entry), getConn w (cid c) (sid s) = some conn → conn.chans[0]? = some x →
+      e ∈ x.sub → R v (key e.msg)) : InvC R key log w' := by
+  refine ⟨?_, ?_, ?_⟩
+  · intro s' X c' hX
+    rw [hsv] at hX; split at hX
+    · next hss =>
+      cases hX; subst hss
+      rw [hlog, List.filter_append, List.map_append, List.pairwise_append]
+      refine ⟨hI.c1 s' V c' hV, ?_, ?_⟩
+      · simp only [List.filter_cons, List.filter_nil]
+        split <;> simp
+      · intro a ha b hb
+        simp only [List.filter_cons, List.filter_nil] at hb
+        split at hb
+        · next hcc =>
+          simp only [decide_eq_true_eq] at hcc
+          simp only [List.map_cons, List.map_nil, List.mem_singleton] at hb
+          subst hb
+          obtain ⟨⟨c0, v0⟩, hmem, rfl⟩ := List.mem_map.mp ha
+          obtain ⟨hm1, hm2⟩ := List.mem_filter.mp hmem
+          simp only [decide_eq_true_eq] at hm2
+          have e1 : c0 = c' := hm2
+          have e2 : c = c' := hcc
+          exact h1 v0 (by rw [e2, ← e1]; exact hm1)
+        · simp at hb
+    · exact hI.c1 s' X c' hX
+  · intro f t conn ch x hc; rw [hco] at hc; exact hI.c2 f t conn ch x hc
+  · intro s' X c' v' conn x e hX hv hc hx he
+    rw [hco] at hc
+    rw [hsv] at hX; split at hX
+    · next hss =>
+      cases hX; subst hss
+      rw [hlog] at hv
+      rcases List.mem_append.mp hv with hv | hv
+      · exact hI.c3 s' V c' v' conn x e hV hv hc hx he
+      · simp only [List.mem_singleton, Prod.mk.injEq] at hv
+        obtain ⟨rfl, rfl⟩ := hv
+        exact h3 conn x e hc hx he
+    · exact hI.c3 s' X c' v' conn x e hX hv hc hx he
+
+theorem mapChanAt {w : World} (hI : InvC R key log w) (f t : Pid) (ch : Nat) (g : Chan → Chan) (hg : ∀ x, (g x).sub = x.sub) :
+    InvC R key log (ReqRes.mapChanAt w f t ch g) := by
+  refine hI.of_shrink (fun s => getSv_mapChanAt w f t ch g s) ?_
+  intro f' t' c' j x' hc hx
+  obtain ⟨c0, hc0, k⟩ := mapChanAt_conn w f t ch g f' t' c' hc
+  obtain ⟨x, hx0, hor⟩ := k j x' hx
+  refine Or.inl ⟨c0, x, hc0, hx0, ?_⟩
+  rcases hor with rfl | ⟨_, _, _, rfl⟩
+  · exact List.suffix_refl _
+  · rw [hg x]; exact List.suffix_refl _
+
+/-- `deliverTo`: the key of a pushed request must be related to everything queued in that channel and to
+everything the receiving server already handed out for this client -/
+theorem deliverTo {w : World} (hI : InvC R key log w) (p t : Pid) (ch : Nat) (e : Entry)
+    (h2 : t.srv = true → ∀ (conn : Conn) (x : Chan) (e' : Entry), getConn w p t = some conn → conn.chans[ch]? = some x →
+      e' ∈ x.sub → R (key e'.msg) (key e.msg))
+    (h3 : ∀ c s V v, p = cid c → t = sid s → getSv w s = some V → (c, v) ∈ log V → R v (key e.msg)) :
+    InvC R key log (ReqRes.deliverTo w p t ch e).1 := by
+  obtain ⟨_, _, _, k4, _, _, _⟩ := deliverTo_core w p t ch e
+  have hconn := deliverTo_conn w p t ch e
+  have hsv : ∀ c, getSv (ReqRes.deliverTo w p t ch e).1 c = getSv w c := fun c => by unfold getSv; rw [k4]
+  refine ⟨?_, ?_, ?_⟩
+  · intro s V c hV; rw [hsv] at hV; exact hI.c1 s V c hV
+  · intro f' t' conn j x' hc hx ht
+    obtain ⟨c0, hc0, k⟩ := hconn f' t' conn hc
+    obtain ⟨x, hx0, _, hor⟩ := k j x' hx
+    rcases hor with h | ⟨rfl, rfl, rfl, l, hl, hs⟩
+    · rw [h]; exact hI.c2 f' t' c0 j x hc0 hx0 ht
+    · rw [hs, List.map_append, List.pairwise_append]
+      refine ⟨(hI.c2 _ _ c0 _ x hc0 hx0 ht).sublist (hl.sublist.map _), by simp, ?_⟩
+      intro a ha b hb
+      simp only [List.map_cons, List.map_nil, List.mem_singleton] at hb
+      subst hb
+      obtain ⟨e', he', rfl⟩ := List.mem_map.mp ha
+      exact h2 ht c0 x e' hc0 hx0 (hl.subset he')
+  · intro s V c v conn x' e' hV hv hc hx he
+    rw [hsv] at hV
+    obtain ⟨c0, hc0, k⟩ := hconn _ _ conn hc
+    obtain ⟨x, hx0, _, hor⟩ := k 0 x' hx
+    rcases hor with h | ⟨hp, ht, hch, l, hl, hs⟩
+    · rw [h] at he; exact hI.c3 s V c v c0 x e' hV hv hc0 hx0 he
+    · rw [hs] at he
+      rcases List.mem_append.mp he with h | h
+      · exact hI.c3 s V c v c0 x e' hV hv hc0 hx0 (hl.subset h)
+      · simp only [List.mem_singleton] at h; subst h
+        exact h3 c s V v hp.symm ht.symm hV hv
+
+theorem init (c : Cfg) : InvC R key log (World.init c) := by
+  have hV : ∀ p, getSv (World.init c) p = none := fun _ => rfl
+  have hN : ∀ f t, getConn (World.init c) f t = none := fun _ _ => rfl
+  refine ⟨?_, ?_, ?_⟩
+  · intro s V c h; rw [hV] at h; cases h
+  · intro f t conn ch x h; rw [hN] at h; cases h
+  · intro s V c v conn x e h; rw [hV] at h; cases h
+
+end InvC
+
+/-- the order of requests: by send number -/
+abbrev InvCs (w : World) : Prop := InvC (· < ·) (·.gSeq) (·.gRecvSeq) w
+/-- the identity of requests: by request id -/
+abbrev InvCr (w : World) : Prop := InvC (· ≠ ·) (·.rid) (·.gRecvReq) w
 
 structure InvX (w : World) : Prop where
   /-- responses received through a pending response carry its request id and answer a request of
@@ -17,18 +205,16 @@ structure InvX (w : World) : Prop where
   r3s : ∀ i s n, w.serverReg.slots.getD i none = some (s, n) → ∃ V, getSv w s = some V ∧ V.ex = true ∧ V.slot = i
   /-- the request connection slot `i` of a client leads to the server that is / was registered in slot `i` -/
   r2s : ∀ c S i t, getSnd w (cid c) = some S → S.conns.getD i none = some t → ∃ V, getSv w t.n = some V ∧ V.slot = i
-  /-- the request ids a server handed out for one client are strictly increasing -/
-  c1 : ∀ s V c, getSv w s = some V → ((V.gRecvReq.filter (fun e => e.1 = c)).map (·.2)).Pairwise (· < ·)
-  /-- request queues are strictly increasing in the request id -/
-  c2 : ∀ (f t : Pid) (conn : Conn) (ch : Nat) (x : Chan), getConn w f t = some conn → conn.chans[ch]? = some x →
-        t.srv = true → (x.sub.map (·.msg.rid)).Pairwise (· < ·)
-  /-- what a server handed out is below everything still queued for it by that client -/
-  c3 : ∀ s V c v (conn : Conn) (x : Chan) (e : Entry), getSv w s = some V → (c, v) ∈ V.gRecvReq →
-        getConn w (cid c) (sid s) = some conn → conn.chans[0]? = some x → e ∈ x.sub → v < e.msg.rid
-  /-- ... and below the client's request-id counter -/
+  /-- what a server handed out is below the client's request-id counter ... -/
   c4 : ∀ s V c v, getSv w s = some V → (c, v) ∈ V.gRecvReq → ∃ C, getCl w c = some C ∧ v < C.ridCtr
+  /-- ... and its send number below the client's send counter -/
+  c4s : ∀ s V c q, getSv w s = some V → (c, q) ∈ V.gRecvSeq → ∃ C, getCl w c = some C ∧ q < C.gSendCtr
   /-- the number of pending responses of a client is within its active-request counter and limit -/
   cl3 : ∀ c C, getCl w c = some C → C.pendings.length ≤ C.activeCnt ∧ C.activeCnt ≤ C.maxActive
+  /-- (c) send numbers: handed out strictly increasing per client, queues strictly increasing, handed out below queued -/
+  cs : InvCs w
+  /-- request ids: handed out pairwise different per client, queues pairwise different, handed out different from queued -/
+  cr : InvCr w
 
 /-- housekeeping (see `Hk`): new request connection slots of a client come from the server registry -/
 theorem InvX.hk {w w' : World} {me : Pid} {P : Nat → Pid → Prop} (hI : InvX w) (h : Hk me w w')
@@ -36,14 +222,7 @@ theorem InvX.hk {w w' : World} {me : Pid} {P : Nat → Pid → Prop} (hI : InvX 
     (hP : ∀ i t, P i t → me.srv = false → ∃ n, w.serverReg.slots.getD i none = some (t.n, n)) : InvX w' := by
   have hcl : ∀ c, getCl w' c = getCl w c := h.getCl_eq
   have hsv : ∀ s, getSv w' s = getSv w s := h.getSv_eq
-  have hconn : ∀ (f t : Pid) (c' : Conn) (ch : Nat) (x' : Chan), getConn w' f t = some c' → c'.chans[ch]? = some x' →
-      (∃ c x, getConn w f t = some c ∧ c.chans[ch]? = some x ∧ x'.sub <:+ x.sub) ∨ x'.sub = [] := by
-    intro f t c' ch x' hc hx
-    rcases h.conns f t c' hc with ⟨c, hc0, l⟩ | fr
-    · obtain ⟨x, hx0, l0⟩ := l.1 ch x' hx
-      exact Or.inl ⟨c, x, hc0, hx0, l0.2⟩
-    · exact Or.inr (fr ch x' hx).1
-  refine ⟨?_, ?_, ?_, ?_, ?_, ?_, ?_, ?_, fun c C hC => hI.cl3 c C (by rw [← hcl]; exact hC)⟩
+  refine ⟨?_, ?_, ?_, ?_, ?_, ?_, fun c C hC => hI.cl3 c C (by rw [← hcl]; exact hC), hI.cs.hk h, hI.cr.hk h⟩
   · intro c C P m hC; rw [hcl] at hC; exact hI.g1 c C P m hC
   · intro s V hV hex; rw [hsv] at hV; rw [h.serverReg]; exact hI.r1s s V hV hex
   · intro i s n hreg; rw [h.serverReg] at hreg; simp only [hsv]; exact hI.r3s i s n hreg
@@ -58,17 +237,8 @@ theorem InvX.hk {w w' : World} {me : Pid} {P : Nat → Pid → Prop} (hI : InvX 
         obtain ⟨V, hV, _, hsl⟩ := hI.r3s i t.n n hn
         exact ⟨V, hV, hsl⟩
     · rw [h.snds _ hp] at hS'; exact hI.r2s c S' i t hS' ht
-  · intro s V c hV; rw [hsv] at hV; exact hI.c1 s V c hV
-  · intro f t conn ch x hc hx ht
-    rcases hconn f t conn ch x hc hx with ⟨c0, x0, hc0, hx0, hsub⟩ | hnil
-    · exact (hI.c2 f t c0 ch x0 hc0 hx0 ht).sublist (hsub.sublist.map _)
-    · rw [hnil]; exact List.Pairwise.nil
-  · intro s V c v conn x e hV hv hc hx he
-    rw [hsv] at hV
-    rcases hconn _ _ conn 0 x hc hx with ⟨c0, x0, hc0, hx0, hsub⟩ | hnil
-    · exact hI.c3 s V c v c0 x0 e hV hv hc0 hx0 (hsub.subset he)
-    · rw [hnil] at he; cases he
   · intro s V c v hV hv; rw [hsv] at hV; rw [hcl]; exact hI.c4 s V c v hV hv
+  · intro s V c v hV hv; rw [hsv] at hV; rw [hcl]; exact hI.c4s s V c v hV hv
 
 /-- clients, servers, registries and connections stay; port records are kept, removed, or replaced by
 records without a connection slot in use -/
@@ -78,7 +248,7 @@ theorem InvX.of_core {w w' : World} (hI : InvX w) (h2 : w'.serverReg = w.serverR
   have hcl : ∀ c, getCl w' c = getCl w c := fun c => by unfold getCl; rw [h4]
   have hsv : ∀ s, getSv w' s = getSv w s := fun c => by unfold getSv; rw [h5]
   have hco : ∀ f t, getConn w' f t = getConn w f t := fun f t => by unfold getConn; rw [h6]
-  refine ⟨?_, ?_, ?_, ?_, ?_, ?_, ?_, ?_, fun c C hC => hI.cl3 c C (by rw [← hcl]; exact hC)⟩
+  refine ⟨?_, ?_, ?_, ?_, ?_, ?_, fun c C hC => hI.cl3 c C (by rw [← hcl]; exact hC), hI.cs.of_same hsv hco, hI.cr.of_same hsv hco⟩
   · intro c C P m hC; rw [hcl] at hC; exact hI.g1 c C P m hC
   · intro s V hV hex; rw [hsv] at hV; rw [h2]; exact hI.r1s s V hV hex
   · intro i s n hreg; rw [h2] at hreg; simp only [hsv]; exact hI.r3s i s n hreg
@@ -87,21 +257,18 @@ theorem InvX.of_core {w w' : World} (hI : InvX w) (h2 : w'.serverReg = w.serverR
     rcases hs _ S' hS' with h | h
     · exact hI.r2s c S' i t h ht
     · rw [h i] at ht; cases ht
-  · intro s V c hV; rw [hsv] at hV; exact hI.c1 s V c hV
-  · intro f t conn ch x hc hx ht; rw [hco] at hc; exact hI.c2 f t conn ch x hc hx ht
-  · intro s V c v conn x e hV hv hc hx he
-    rw [hsv] at hV; rw [hco] at hc; exact hI.c3 s V c v conn x e hV hv hc hx he
   · intro s V c v hV hv; rw [hsv] at hV; rw [hcl]; exact hI.c4 s V c v hV hv
+  · intro s V c v hV hv; rw [hsv] at hV; rw [hcl]; exact hI.c4s s V c v hV hv
 
-/-- a client record is written: the request-id counter does not go back, the received-response logs
-of its pending responses are as required -/
+/-- a client record is written: the request-id counter and the send counter do not go back, the
+received-response logs of its pending responses are as required -/
 theorem InvX.setCl {w : World} (hI : InvX w) {c : Nat} {C' : Client}
-    (hrid : ∀ C, getCl w c = some C → C.ridCtr ≤ C'.ridCtr)
+    (hrid : ∀ C, getCl w c = some C → C.ridCtr ≤ C'.ridCtr ∧ C.gSendCtr ≤ C'.gSendCtr)
     (hg : ∀ P ∈ C'.pendings, ∀ m ∈ P.gRecv, m.rid = P.rid ∧ (m.gClient = c ∨ m.gStale = true))
     (hcnt : C'.pendings.length ≤ C'.activeCnt ∧ C'.activeCnt ≤ C'.maxActive) :
     InvX (ReqRes.setCl w c C') := by
   have hcl : ∀ c', getCl (ReqRes.setCl w c C') c' = if c' = c then some C' else getCl w c' := fun _ => getCl_setCl _ _ _ _
-  refine ⟨?_, hI.r1s, hI.r3s, hI.r2s, hI.c1, hI.c2, hI.c3, ?_, ?_⟩
+  refine ⟨?_, hI.r1s, hI.r3s, hI.r2s, ?_, ?_, ?_, ⟨hI.cs.c1, hI.cs.c2, hI.cs.c3⟩, ⟨hI.cr.c1, hI.cr.c2, hI.cr.c3⟩⟩
   · intro c' X P m hX hP hm
     rw [hcl] at hX; split at hX
     · next hcc => cases hX; subst hcc; exact hg P hP m hm
@@ -111,52 +278,69 @@ theorem InvX.setCl {w : World} (hI : InvX w) {c : Nat} {C' : Client}
     rw [hcl]
     by_cases hcc : c' = c
     · subst hcc; simp only [if_true]
-      exact ⟨C', rfl, Nat.lt_of_lt_of_le hlt (hrid X hX)⟩
+      exact ⟨C', rfl, Nat.lt_of_lt_of_le hlt (hrid X hX).1⟩
+    · simp only [hcc, if_false]; exact ⟨X, hX, hlt⟩
+  · intro s V c' v hV hv
+    obtain ⟨X, hX, hlt⟩ := hI.c4s s V c' v hV hv
+    rw [hcl]
+    by_cases hcc : c' = c
+    · subst hcc; simp only [if_true]
+      exact ⟨C', rfl, Nat.lt_of_lt_of_le hlt (hrid X hX).2⟩
     · simp only [hcc, if_false]; exact ⟨X, hX, hlt⟩
   · intro c' X hX
     rw [hcl] at hX; split at hX
     · cases hX; exact hcnt
     · exact hI.cl3 c' X hX
 
-/-- a server record is written: same existence, slot and request log -/
-theorem InvX.setSv {w : World} (hI : InvX w) {s : Nat} {V V' : Server} (hV : getSv w s = some V)
-    (hex : V'.ex = V.ex) (hslot : V'.slot = V.slot) (hlog : V'.gRecvReq = V.gRecvReq) :
-    InvX (ReqRes.setSv w s V') := by
-  have hsv : ∀ s', getSv (ReqRes.setSv w s V') s' = if s' = s then some V' else getSv w s' := fun _ => getSv_setSv _ _ _ _
-  refine ⟨hI.g1, ?_, ?_, ?_, ?_, hI.c2, ?_, ?_, hI.cl3⟩
+/-- registry and slot clauses when the record of server `s` is replaced by one with the same existence and slot -/
+theorem InvX.setSv_regs {w w' : World} (hI : InvX w) {s : Nat} {V V' : Server} (hV : getSv w s = some V)
+    (hsv : ∀ s', getSv w' s' = if s' = s then some V' else getSv w s') (hreg : w'.serverReg = w.serverReg)
+    (hsnd : ∀ p, getSnd w' p = getSnd w p)
+    (hex : V'.ex = V.ex) (hslot : V'.slot = V.slot) :
+    (∀ s V, getSv w' s = some V → V.ex = true → ∃ n, w'.serverReg.slots.getD V.slot none = some (s, n)) ∧
+    (∀ i s n, w'.serverReg.slots.getD i none = some (s, n) → ∃ V, getSv w' s = some V ∧ V.ex = true ∧ V.slot = i) ∧
+    (∀ c S i t, getSnd w' (cid c) = some S → S.conns.getD i none = some t → ∃ V, getSv w' t.n = some V ∧ V.slot = i) := by
+  refine ⟨?_, ?_, ?_⟩
   · intro s' X hX hXex
+    rw [hreg]
     rw [hsv] at hX; split at hX
     · next hss => cases hX; subst hss; rw [hslot]; exact hI.r1s s' V hV (hex ▸ hXex)
     · exact hI.r1s s' X hX hXex
-  · intro i s' n hreg
-    obtain ⟨X, hX, hXex, hsl⟩ := hI.r3s i s' n hreg
+  · intro i s' n hr
+    rw [hreg] at hr
+    obtain ⟨X, hX, hXex, hsl⟩ := hI.r3s i s' n hr
     rw [hsv]
     by_cases hss : s' = s
     · subst hss; simp only [if_true]; rw [hV] at hX; cases hX
       exact ⟨V', rfl, hex ▸ hXex, hslot ▸ hsl⟩
     · simp only [hss, if_false]; exact ⟨X, hX, hXex, hsl⟩
   · intro c S i t hS ht
+    rw [hsnd] at hS
     obtain ⟨X, hX, hsl⟩ := hI.r2s c S i t hS ht
     rw [hsv]
     by_cases hss : t.n = s
     · simp only [hss, if_true]; rw [hss, hV] at hX; cases hX
       exact ⟨V', rfl, hslot ▸ hsl⟩
     · simp only [hss, if_false]; exact ⟨X, hX, hsl⟩
-  · intro s' X c hX
-    rw [hsv] at hX; split at hX
-    · next hss => cases hX; subst hss; rw [hlog]; exact hI.c1 s' V c hV
-    · exact hI.c1 s' X c hX
-  · intro s' X c v conn x e hX hv hc hx he
-    rw [hsv] at hX; split at hX
-    · next hss => cases hX; subst hss; rw [hlog] at hv; exact hI.c3 s' V c v conn x e hV hv hc hx he
-    · exact hI.c3 s' X c v conn x e hX hv hc hx he
+
+/-- a server record is written: same existence, slot and request logs -/
+theorem InvX.setSv {w : World} (hI : InvX w) {s : Nat} {V V' : Server} (hV : getSv w s = some V)
+    (hex : V'.ex = V.ex) (hslot : V'.slot = V.slot) (hlog : V'.gRecvReq = V.gRecvReq) (hlogs : V'.gRecvSeq = V.gRecvSeq) :
+    InvX (ReqRes.setSv w s V') := by
+  have hsv : ∀ s', getSv (ReqRes.setSv w s V') s' = if s' = s then some V' else getSv w s' := fun _ => getSv_setSv _ _ _ _
+  obtain ⟨k1, k2, k3⟩ := hI.setSv_regs hV hsv rfl (fun _ => rfl) hex hslot
+  refine ⟨hI.g1, k1, k2, k3, ?_, ?_, hI.cl3, hI.cs.setSv hV hsv (fun _ _ => rfl) hlogs, hI.cr.setSv hV hsv (fun _ _ => rfl) hlog⟩
   · intro s' X c v hX hv
     rw [hsv] at hX; split at hX
     · next hss => cases hX; subst hss; rw [hlog] at hv; exact hI.c4 s' V c v hV hv
     · exact hI.c4 s' X c v hX hv
+  · intro s' X c v hX hv
+    rw [hsv] at hX; split at hX
+    · next hss => cases hX; subst hss; rw [hlogs] at hv; exact hI.c4s s' V c v hV hv
+    · exact hI.c4s s' X c v hX hv
 
 theorem InvX.clientReg {w : World} (hI : InvX w) (reg : Reg (Nat × Nat)) : InvX { w with clientReg := reg } :=
-  ⟨hI.g1, hI.r1s, hI.r3s, hI.r2s, hI.c1, hI.c2, hI.c3, hI.c4, hI.cl3⟩
+  ⟨hI.g1, hI.r1s, hI.r3s, hI.r2s, hI.c4, hI.c4s, hI.cl3, ⟨hI.cs.c1, hI.cs.c2, hI.cs.c3⟩, ⟨hI.cr.c1, hI.cr.c2, hI.cr.c3⟩⟩
 
 theorem getD_set_some' {α : Type} (l : List (Option α)) (i j : Nat) (v : Option α) (t : α)
     (h : (l.set i v).getD j none = some t) : (l.getD j none = some t ∧ j ≠ i) ∨ (j = i ∧ v = some t) := by
@@ -209,14 +393,14 @@ theorem regAdd_spec' {α : Type} (r r' : Reg α) (a : α) (j : Nat) (h : r.add a
 /-- a new server registers: its record appears together with its registry entry -/
 theorem InvX.serverNew {w : World} (hI : InvX w) {s n slot : Nat} {reg : Reg (Nat × Nat)} {V : Server}
     (hfresh : getSv w s = none) (hadd : w.serverReg.add (s, n) = some (reg, slot))
-    (hslot : V.slot = slot) (hex : V.ex = true) (hlog : V.gRecvReq = []) :
+    (hslot : V.slot = slot) (hex : V.ex = true) (hlog : V.gRecvReq = []) (hlogs : V.gRecvSeq = []) :
     InvX { ReqRes.setSv w s V with serverReg := reg } := by
   obtain ⟨hfree, hreg⟩ := regAdd_spec' _ _ _ _ hadd
   have hsv : ∀ s', getSv { ReqRes.setSv w s V with serverReg := reg } s' = if s' = s then some V else getSv w s' :=
     fun _ => getSv_setSv _ _ _ _
   have hfreeD : w.serverReg.slots.getD slot none = none := by
     rw [List.getD_eq_getElem?_getD, hfree]; rfl
-  refine ⟨hI.g1, ?_, ?_, ?_, ?_, hI.c2, ?_, ?_, hI.cl3⟩
+  refine ⟨hI.g1, ?_, ?_, ?_, ?_, ?_, hI.cl3, hI.cs.setSvNew hsv (fun _ _ => rfl) hlogs, hI.cr.setSvNew hsv (fun _ _ => rfl) hlog⟩
   · intro s' X hX hXex
     rw [hsv] at hX
     show ∃ n, reg.slots.getD X.slot none = some (s', n)
@@ -243,25 +427,21 @@ theorem InvX.serverNew {w : World} (hI : InvX w) {s n slot : Nat} {reg : Reg (Na
     rw [hsv]
     have hss : t.n ≠ s := by intro e; rw [e, hfresh] at hX; cases hX
     simp only [hss, if_false]; exact ⟨X, hX, hsl⟩
-  · intro s' X c hX
-    rw [hsv] at hX; split at hX
-    · cases hX; rw [hlog]; exact List.Pairwise.nil
-    · exact hI.c1 s' X c hX
-  · intro s' X c v conn x e hX hv hc hx he
-    rw [hsv] at hX; split at hX
-    · cases hX; rw [hlog] at hv; cases hv
-    · exact hI.c3 s' X c v conn x e hX hv hc hx he
   · intro s' X c v hX hv
     rw [hsv] at hX; split at hX
     · cases hX; rw [hlog] at hv; cases hv
     · exact hI.c4 s' X c v hX hv
+  · intro s' X c v hX hv
+    rw [hsv] at hX; split at hX
+    · cases hX; rw [hlogs] at hv; cases hv
+    · exact hI.c4s s' X c v hX hv
 
 /-- the shared state of a server goes: its registry entry is released -/
 theorem InvX.serverGone {w : World} (hI : InvX w) {s : Nat} {V : Server} (hV : getSv w s = some V) (hex : V.ex = true) :
     InvX { ReqRes.setSv w s { V with ex := false } with serverReg := w.serverReg.remove V.slot } := by
   have hsv : ∀ s', getSv { ReqRes.setSv w s { V with ex := false } with serverReg := w.serverReg.remove V.slot } s'
       = if s' = s then some { V with ex := false } else getSv w s' := fun _ => getSv_setSv _ _ _ _
-  refine ⟨hI.g1, ?_, ?_, ?_, ?_, hI.c2, ?_, ?_, hI.cl3⟩
+  refine ⟨hI.g1, ?_, ?_, ?_, ?_, ?_, hI.cl3, hI.cs.setSv hV hsv (fun _ _ => rfl) rfl, hI.cr.setSv hV hsv (fun _ _ => rfl) rfl⟩
   · intro s' X hX hXex
     rw [hsv] at hX
     show ∃ n, (w.serverReg.slots.set V.slot none).getD X.slot none = some (s', n)
@@ -290,82 +470,30 @@ theorem InvX.serverGone {w : World} (hI : InvX w) {s : Nat} {V : Server} (hV : g
     by_cases hss : t.n = s
     · simp only [hss, if_true]; rw [hss, hV] at hX; cases hX; exact ⟨_, rfl, hsl⟩
     · simp only [hss, if_false]; exact ⟨X, hX, hsl⟩
-  · intro s' X c hX
-    rw [hsv] at hX; split at hX
-    · next hss => cases hX; subst hss; exact hI.c1 s' V c hV
-    · exact hI.c1 s' X c hX
-  · intro s' X c v conn x e hX hv hc hx he
-    rw [hsv] at hX; split at hX
-    · next hss => cases hX; subst hss; exact hI.c3 s' V c v conn x e hV hv hc hx he
-    · exact hI.c3 s' X c v conn x e hX hv hc hx he
   · intro s' X c v hX hv
     rw [hsv] at hX; split at hX
     · next hss => cases hX; subst hss; exact hI.c4 s' V c v hV hv
     · exact hI.c4 s' X c v hX hv
+  · intro s' X c v hX hv
+    rw [hsv] at hX; split at hX
+    · next hss => cases hX; subst hss; exact hI.c4s s' V c v hV hv
+    · exact hI.c4s s' X c v hX hv
 
-/-- a server hands out request `(c, v)`: it is above everything handed out for `c` before, below
-everything still queued by `c` for this server, and below `c`'s counter -/
+/-- a server hands out the request with id `v` and send number `q` of client `c`: its send number is above
+everything handed out for `c` before and below everything still queued by `c` for this server; its id differs
+from all of those; both are below `c`'s counters -/
 theorem InvX.setSv_log {w : World} (hI : InvX w) {s : Nat} {V V' : Server} (hV : getSv w s = some V)
-    (hex : V'.ex = V.ex) (hslot : V'.slot = V.slot) {c v : Nat} (hlog : V'.gRecvReq = V.gRecvReq ++ [(c, v)])
-    (h1 : ∀ v', (c, v') ∈ V.gRecvReq → v' < v)
+    (hex : V'.ex = V.ex) (hslot : V'.slot = V.slot) {c v q : Nat} (hlog : V'.gRecvReq = V.gRecvReq ++ [(c, v)])
+    (hlogs : V'.gRecvSeq = V.gRecvSeq ++ [(c, q)])
+    (h1 : ∀ v', (c, v') ∈ V.gRecvReq → v' ≠ v) (h1s : ∀ q', (c, q') ∈ V.gRecvSeq → q' < q)
     (h3 : ∀ (conn : Conn) (x : Chan) (e : Entry), getConn w (cid c) (sid s) = some conn → conn.chans[0]? = some x →
-      e ∈ x.sub → v < e.msg.rid)
-    (h4 : ∃ C, getCl w c = some C ∧ v < C.ridCtr) : InvX (ReqRes.setSv w s V') := by
+      e ∈ x.sub → q < e.msg.gSeq ∧ v ≠ e.msg.rid)
+    (h4 : ∃ C, getCl w c = some C ∧ v < C.ridCtr ∧ q < C.gSendCtr) : InvX (ReqRes.setSv w s V') := by
   have hsv : ∀ s', getSv (ReqRes.setSv w s V') s' = if s' = s then some V' else getSv w s' := fun _ => getSv_setSv _ _ _ _
-  have hbase := hI.setSv (V' := { V' with gRecvReq := V.gRecvReq }) hV hex hslot rfl
-  refine ⟨hI.g1, ?_, ?_, ?_, ?_, hI.c2, ?_, ?_, hI.cl3⟩
-  · intro s' X hX hXex
-    rw [hsv] at hX; split at hX
-    · next hss => cases hX; subst hss; rw [hslot]; exact hI.r1s s' V hV (hex ▸ hXex)
-    · exact hI.r1s s' X hX hXex
-  · intro i s' n hreg
-    obtain ⟨X, hX, hXex, hsl⟩ := hI.r3s i s' n hreg
-    rw [hsv]
-    by_cases hss : s' = s
-    · subst hss; simp only [if_true]; rw [hV] at hX; cases hX
-      exact ⟨V', rfl, hex ▸ hXex, hslot ▸ hsl⟩
-    · simp only [hss, if_false]; exact ⟨X, hX, hXex, hsl⟩
-  · intro c' S i t hS ht
-    obtain ⟨X, hX, hsl⟩ := hI.r2s c' S i t hS ht
-    rw [hsv]
-    by_cases hss : t.n = s
-    · simp only [hss, if_true]; rw [hss, hV] at hX; cases hX
-      exact ⟨V', rfl, hslot ▸ hsl⟩
-    · simp only [hss, if_false]; exact ⟨X, hX, hsl⟩
-  · intro s' X c' hX
-    rw [hsv] at hX; split at hX
-    · next hss =>
-      cases hX; subst hss
-      rw [hlog, List.filter_append, List.map_append, List.pairwise_append]
-      refine ⟨hI.c1 s' V c' hV, ?_, ?_⟩
-      · simp only [List.filter_cons, List.filter_nil]
-        split <;> simp
-      · intro a ha b hb
-        simp only [List.filter_cons, List.filter_nil] at hb
-        split at hb
-        · next hcc =>
-          simp only [decide_eq_true_eq] at hcc
-          simp only [List.map_cons, List.map_nil, List.mem_singleton] at hb
-          subst hb
-          obtain ⟨⟨c0, v0⟩, hmem, rfl⟩ := List.mem_map.mp ha
-          obtain ⟨hm1, hm2⟩ := List.mem_filter.mp hmem
-          simp only [decide_eq_true_eq] at hm2
-          have e1 : c0 = c' := hm2
-          have e2 : c = c' := hcc
-          exact h1 v0 (by rw [e2, ← e1]; exact hm1)
-        · simp at hb
-    · exact hI.c1 s' X c' hX
-  · intro s' X c' v' conn x e hX hv hc hx he
-    rw [hsv] at hX; split at hX
-    · next hss =>
-      cases hX; subst hss
-      rw [hlog] at hv
-      rcases List.mem_append.mp hv with hv | hv
-      · exact hI.c3 s' V c' v' conn x e hV hv hc hx he
-      · simp only [List.mem_singleton, Prod.mk.injEq] at hv
-        obtain ⟨rfl, rfl⟩ := hv
-        exact h3 conn x e hc hx he
-    · exact hI.c3 s' X c' v' conn x e hX hv hc hx he
+  obtain ⟨k1, k2, k3⟩ := hI.setSv_regs hV hsv rfl (fun _ => rfl) hex hslot
+  refine ⟨hI.g1, k1, k2, k3, ?_, ?_, hI.cl3,
+    hI.cs.setSv_log hV hsv (fun _ _ => rfl) hlogs h1s (fun conn x e hc hx he => (h3 conn x e hc hx he).1),
+    hI.cr.setSv_log hV hsv (fun _ _ => rfl) hlog h1 (fun conn x e hc hx he => (h3 conn x e hc hx he).2)⟩
   · intro s' X c' v' hX hv
     rw [hsv] at hX; split at hX
     · next hss =>
@@ -375,8 +503,21 @@ theorem InvX.setSv_log {w : World} (hI : InvX w) {s : Nat} {V V' : Server} (hV :
       · exact hI.c4 s' V c' v' hV hv
       · simp only [List.mem_singleton, Prod.mk.injEq] at hv
         obtain ⟨rfl, rfl⟩ := hv
-        exact h4
+        obtain ⟨C, hC, h, _⟩ := h4
+        exact ⟨C, hC, h⟩
     · exact hI.c4 s' X c' v' hX hv
+  · intro s' X c' v' hX hv
+    rw [hsv] at hX; split at hX
+    · next hss =>
+      cases hX; subst hss
+      rw [hlogs] at hv
+      rcases List.mem_append.mp hv with hv | hv
+      · exact hI.c4s s' V c' v' hV hv
+      · simp only [List.mem_singleton, Prod.mk.injEq] at hv
+        obtain ⟨rfl, rfl⟩ := hv
+        obtain ⟨C, hC, _, h⟩ := h4
+        exact ⟨C, hC, h⟩
+    · exact hI.c4s s' X c' v' hX hv
 
 theorem serverReg_mapChanAt (w : World) (f t : Pid) (ch : Nat) (g : Chan → Chan) :
     (mapChanAt w f t ch g).serverReg = w.serverReg := by
@@ -386,73 +527,37 @@ theorem serverReg_mapChanAt (w : World) (f t : Pid) (ch : Nat) (g : Chan → Cha
 
 theorem InvX.mapChanAt {w : World} (hI : InvX w) (f t : Pid) (ch : Nat) (g : Chan → Chan) (hg : ∀ x, (g x).sub = x.sub) :
     InvX (ReqRes.mapChanAt w f t ch g) := by
-  have hconn : ∀ (f' t' : Pid) (c' : Conn) (j : Nat) (x' : Chan), getConn (ReqRes.mapChanAt w f t ch g) f' t' = some c' →
-      c'.chans[j]? = some x' → ∃ c x, getConn w f' t' = some c ∧ c.chans[j]? = some x ∧ x'.sub = x.sub := by
-    intro f' t' c' j x' hc hx
-    obtain ⟨c0, hc0, k⟩ := mapChanAt_conn w f t ch g f' t' c' hc
-    obtain ⟨x, hx0, hor⟩ := k j x' hx
-    refine ⟨c0, x, hc0, hx0, ?_⟩
-    rcases hor with rfl | ⟨_, _, _, rfl⟩
-    · rfl
-    · exact hg x
-  refine ⟨?_, ?_, ?_, ?_, ?_, ?_, ?_, ?_, fun c C hC => hI.cl3 c C (by rw [← getCl_mapChanAt]; exact hC)⟩
+  refine ⟨?_, ?_, ?_, ?_, ?_, ?_, fun c C hC => hI.cl3 c C (by rw [← getCl_mapChanAt]; exact hC),
+    hI.cs.mapChanAt f t ch g hg, hI.cr.mapChanAt f t ch g hg⟩
   · intro c C P m hC; rw [getCl_mapChanAt] at hC; exact hI.g1 c C P m hC
   · intro s V hV hex; rw [getSv_mapChanAt] at hV; rw [serverReg_mapChanAt]; exact hI.r1s s V hV hex
   · intro i s n hreg; rw [serverReg_mapChanAt] at hreg; simp only [getSv_mapChanAt]; exact hI.r3s i s n hreg
   · intro c S i t' hS ht; rw [getSnd_mapChanAt] at hS; simp only [getSv_mapChanAt]; exact hI.r2s c S i t' hS ht
-  · intro s V c hV; rw [getSv_mapChanAt] at hV; exact hI.c1 s V c hV
-  · intro f' t' conn j x hc hx ht
-    obtain ⟨c0, x0, hc0, hx0, hs⟩ := hconn f' t' conn j x hc hx
-    rw [hs]; exact hI.c2 f' t' c0 j x0 hc0 hx0 ht
-  · intro s V c v conn x e hV hv hc hx he
-    rw [getSv_mapChanAt] at hV
-    obtain ⟨c0, x0, hc0, hx0, hs⟩ := hconn _ _ conn 0 x hc hx
-    rw [hs] at he; exact hI.c3 s V c v c0 x0 e hV hv hc0 hx0 he
   · intro s V c v hV hv; rw [getSv_mapChanAt] at hV; simp only [getCl_mapChanAt]; exact hI.c4 s V c v hV hv
+  · intro s V c v hV hv; rw [getSv_mapChanAt] at hV; simp only [getCl_mapChanAt]; exact hI.c4s s V c v hV hv
 
-/-- `deliverTo`: a pushed request must be above everything queued in that channel and above
-everything the receiving server already handed out for this client -/
+/-- `deliverTo`: a pushed request must have a send number above, and an id different from, everything queued
+in that channel and everything the receiving server already handed out for this client -/
 theorem InvX.deliverTo {w : World} (hI : InvX w) (p t : Pid) (ch : Nat) (e : Entry)
     (h2 : t.srv = true → ∀ (conn : Conn) (x : Chan) (e' : Entry), getConn w p t = some conn → conn.chans[ch]? = some x →
-      e' ∈ x.sub → e'.msg.rid < e.msg.rid)
-    (h3 : ∀ c s V v, p = cid c → t = sid s → getSv w s = some V → (c, v) ∈ V.gRecvReq → v < e.msg.rid) :
+      e' ∈ x.sub → e'.msg.gSeq < e.msg.gSeq ∧ e'.msg.rid ≠ e.msg.rid)
+    (h3 : ∀ c s V v, p = cid c → t = sid s → getSv w s = some V → (c, v) ∈ V.gRecvSeq → v < e.msg.gSeq)
+    (h3r : ∀ c s V v, p = cid c → t = sid s → getSv w s = some V → (c, v) ∈ V.gRecvReq → v ≠ e.msg.rid) :
     InvX (ReqRes.deliverTo w p t ch e).1 := by
   obtain ⟨_, k2, k3, k4, _, _, ks⟩ := deliverTo_core w p t ch e
-  have hconn := deliverTo_conn w p t ch e
   have hcl : ∀ c, getCl (ReqRes.deliverTo w p t ch e).1 c = getCl w c := fun c => by unfold getCl; rw [k3]
   have hsv : ∀ c, getSv (ReqRes.deliverTo w p t ch e).1 c = getSv w c := fun c => by unfold getSv; rw [k4]
-  refine ⟨?_, ?_, ?_, ?_, ?_, ?_, ?_, ?_, fun c C hC => hI.cl3 c C (by rw [← hcl]; exact hC)⟩
+  refine ⟨?_, ?_, ?_, ?_, ?_, ?_, fun c C hC => hI.cl3 c C (by rw [← hcl]; exact hC),
+    hI.cs.deliverTo p t ch e (fun ht conn x e' hc hx he => (h2 ht conn x e' hc hx he).1) h3,
+    hI.cr.deliverTo p t ch e (fun ht conn x e' hc hx he => (h2 ht conn x e' hc hx he).2) h3r⟩
   · intro c C P m hC; rw [hcl] at hC; exact hI.g1 c C P m hC
   · intro s V hV hex; rw [hsv] at hV; rw [k2]; exact hI.r1s s V hV hex
   · intro i s n hreg; rw [k2] at hreg; simp only [hsv]; exact hI.r3s i s n hreg
   · intro c S' i t' hS' ht
     obtain ⟨S, hS, _, hc⟩ := ks _ S' hS'
     rw [hc] at ht; simp only [hsv]; exact hI.r2s c S i t' hS ht
-  · intro s V c hV; rw [hsv] at hV; exact hI.c1 s V c hV
-  · intro f' t' conn j x' hc hx ht
-    obtain ⟨c0, hc0, k⟩ := hconn f' t' conn hc
-    obtain ⟨x, hx0, _, hor⟩ := k j x' hx
-    rcases hor with h | ⟨rfl, rfl, rfl, l, hl, hs⟩
-    · rw [h]; exact hI.c2 f' t' c0 j x hc0 hx0 ht
-    · rw [hs, List.map_append, List.pairwise_append]
-      refine ⟨(hI.c2 _ _ c0 _ x hc0 hx0 ht).sublist (hl.sublist.map _), by simp, ?_⟩
-      intro a ha b hb
-      simp only [List.map_cons, List.map_nil, List.mem_singleton] at hb
-      subst hb
-      obtain ⟨e', he', rfl⟩ := List.mem_map.mp ha
-      exact h2 ht c0 x e' hc0 hx0 (hl.subset he')
-  · intro s V c v conn x' e' hV hv hc hx he
-    rw [hsv] at hV
-    obtain ⟨c0, hc0, k⟩ := hconn _ _ conn hc
-    obtain ⟨x, hx0, _, hor⟩ := k 0 x' hx
-    rcases hor with h | ⟨hp, ht, hch, l, hl, hs⟩
-    · rw [h] at he; exact hI.c3 s V c v c0 x e' hV hv hc0 hx0 he
-    · rw [hs] at he
-      rcases List.mem_append.mp he with h | h
-      · exact hI.c3 s V c v c0 x e' hV hv hc0 hx0 (hl.subset h)
-      · simp only [List.mem_singleton] at h; subst h
-        exact h3 c s V v hp.symm ht.symm hV hv
   · intro s V c v hV hv; rw [hsv] at hV; rw [hcl]; exact hI.c4 s V c v hV hv
+  · intro s V c v hV hv; rw [hsv] at hV; rw [hcl]; exact hI.c4s s V c v hV hv
 
 theorem getD_replicate_none' {α : Type} (n i : Nat) : (List.replicate n (none : Option α)).getD i none = none := by
   rw [List.getD_eq_getElem?_getD, List.getElem?_replicate]
@@ -465,39 +570,41 @@ theorem InvX.init (c : Cfg) : InvX (World.init c) := by
   have hS : ∀ p, getSnd (World.init c) p = none := fun _ => rfl
   have hC : ∀ p, getCl (World.init c) p = none := fun _ => rfl
   have hV : ∀ p, getSv (World.init c) p = none := fun _ => rfl
-  have hN : ∀ f t, getConn (World.init c) f t = none := fun _ _ => rfl
-  refine ⟨?_, ?_, ?_, ?_, ?_, ?_, ?_, ?_, fun p C h => by rw [hC] at h; cases h⟩
+  refine ⟨?_, ?_, ?_, ?_, ?_, ?_, (fun p C h => by rw [hC] at h; cases h), InvC.init c, InvC.init c⟩
   · intro p C P m h; rw [hC] at h; cases h
   · intro s V h; rw [hV] at h; cases h
   · intro i p n h; rw [hreg] at h; cases h
   · intro p S i t h; rw [hS] at h; cases h
-  · intro s V c h; rw [hV] at h; cases h
-  · intro f t conn ch x h; rw [hN] at h; cases h
-  · intro s V c v conn x e h; rw [hV] at h; cases h
+  · intro s V c v h; rw [hV] at h; cases h
   · intro s V c v h; rw [hV] at h; cases h
 
-/-- every request queued by client `c` and everything handed out for `c` by a server is below `rid` -/
-def QBelow (w : World) (c rid : Nat) : Prop :=
+/-- every request queued by client `c` and everything handed out for `c` by a server has a send number below
+`k` and a request id different from `rid` -/
+def QBelow (w : World) (c k rid : Nat) : Prop :=
   (∀ (t : Pid) (conn : Conn) (ch : Nat) (x : Chan) (e' : Entry), getConn w (cid c) t = some conn → conn.chans[ch]? = some x →
-    e' ∈ x.sub → t.srv = true → e'.msg.rid < rid) ∧
-  (∀ s V v, getSv w s = some V → (c, v) ∈ V.gRecvReq → v < rid)
+    e' ∈ x.sub → t.srv = true → e'.msg.gSeq < k ∧ e'.msg.rid ≠ rid) ∧
+  (∀ s V v, getSv w s = some V → (c, v) ∈ V.gRecvSeq → v < k) ∧
+  (∀ s V v, getSv w s = some V → (c, v) ∈ V.gRecvReq → v ≠ rid)
 
-theorem QBelow.of_hk {w w' : World} {me : Pid} {c rid : Nat} (h : QBelow w c rid) (hk : Hk me w w') : QBelow w' c rid := by
-  refine ⟨?_, fun s V v hV hv => h.2 s V v (by rw [← hk.getSv_eq]; exact hV) hv⟩
+theorem QBelow.of_hk {w w' : World} {me : Pid} {c k rid : Nat} (h : QBelow w c k rid) (hk : Hk me w w') : QBelow w' c k rid := by
+  refine ⟨?_, fun s V v hV hv => h.2.1 s V v (by rw [← hk.getSv_eq]; exact hV) hv,
+    fun s V v hV hv => h.2.2 s V v (by rw [← hk.getSv_eq]; exact hV) hv⟩
   intro t conn ch x e' hc hx he ht
   rcases hk.conns _ _ conn hc with ⟨c0, hc0, l⟩ | fr
   · obtain ⟨x0, hx0, l0⟩ := l.1 ch x hx
     exact h.1 t c0 ch x0 e' hc0 hx0 (l0.2.subset he) ht
   · rw [(fr ch x hx).1] at he; cases he
 
-theorem QBelow.of_same {w w' : World} {c rid : Nat} (h : QBelow w c rid) (h1 : w'.conns = w.conns)
-    (h2 : w'.servers = w.servers) : QBelow w' c rid := by
+theorem QBelow.of_same {w w' : World} {c k rid : Nat} (h : QBelow w c k rid) (h1 : w'.conns = w.conns)
+    (h2 : w'.servers = w.servers) : QBelow w' c k rid := by
   refine ⟨fun t conn ch x e' hc => h.1 t conn ch x e' (by unfold getConn at *; rw [← h1]; exact hc),
-    fun s V v hV => h.2 s V v (by unfold getSv at *; rw [← h2]; exact hV)⟩
+    fun s V v hV => h.2.1 s V v (by unfold getSv at *; rw [← h2]; exact hV),
+    fun s V v hV => h.2.2 s V v (by unfold getSv at *; rw [← h2]; exact hV)⟩
 
-theorem QBelow.mapChanAt {w : World} {c rid : Nat} (h : QBelow w c rid) (f t : Pid) (ch : Nat) (g : Chan → Chan)
-    (hg : ∀ x, (g x).sub = x.sub) : QBelow (ReqRes.mapChanAt w f t ch g) c rid := by
-  refine ⟨?_, fun s V v hV hv => h.2 s V v (by rw [← getSv_mapChanAt]; exact hV) hv⟩
+theorem QBelow.mapChanAt {w : World} {c k rid : Nat} (h : QBelow w c k rid) (f t : Pid) (ch : Nat) (g : Chan → Chan)
+    (hg : ∀ x, (g x).sub = x.sub) : QBelow (ReqRes.mapChanAt w f t ch g) c k rid := by
+  refine ⟨?_, fun s V v hV hv => h.2.1 s V v (by rw [← getSv_mapChanAt]; exact hV) hv,
+    fun s V v hV hv => h.2.2 s V v (by rw [← getSv_mapChanAt]; exact hV) hv⟩
   intro t' conn j x' e' hc hx he ht
   obtain ⟨c0, hc0, k⟩ := mapChanAt_conn w f t ch g _ _ conn hc
   obtain ⟨x, hx0, hor⟩ := k j x' hx
@@ -507,14 +614,14 @@ theorem QBelow.mapChanAt {w : World} {c rid : Nat} (h : QBelow w c rid) (f t : P
     · rw [hg] at he; exact he
   exact h.1 t' c0 j x e' hc0 hx0 this ht
 
-theorem QBelow.rcvMapChan {w : World} {c rid : Nat} (h : QBelow w c rid) (me : Pid) (ch : Nat) (g : Chan → Chan)
-    (hg : ∀ x, (g x).sub = x.sub) (l : List (Nat × Pid)) : QBelow (ReqRes.rcvMapChan w me ch g l) c rid := by
+theorem QBelow.rcvMapChan {w : World} {c k rid : Nat} (h : QBelow w c k rid) (me : Pid) (ch : Nat) (g : Chan → Chan)
+    (hg : ∀ x, (g x).sub = x.sub) (l : List (Nat × Pid)) : QBelow (ReqRes.rcvMapChan w me ch g l) c k rid := by
   induction l generalizing w with
   | nil => exact h
   | cons a r ih => obtain ⟨k, f⟩ := a; simp only [ReqRes.rcvMapChan]; exact ih (h.mapChanAt f me ch g hg)
 
-theorem QBelow.rcvMapAll {w : World} {c rid : Nat} (h : QBelow w c rid) (me : Pid) (ch : Nat) (g : Chan → Chan)
-    (hg : ∀ x, (g x).sub = x.sub) : QBelow (ReqRes.rcvMapAll w me ch g) c rid := by
+theorem QBelow.rcvMapAll {w : World} {c k rid : Nat} (h : QBelow w c k rid) (me : Pid) (ch : Nat) (g : Chan → Chan)
+    (hg : ∀ x, (g x).sub = x.sub) : QBelow (ReqRes.rcvMapAll w me ch g) c k rid := by
   unfold ReqRes.rcvMapAll; split
   · exact h.rcvMapChan me ch g hg _
   · exact h
